@@ -81,7 +81,7 @@ func newRX(options plugintypes.OperatorOptions) (plugintypes.Operator, error) {
 		// Use binary regex matcher if expression matches non-utf8 bytes. The binary matcher does
 		// not match unicode, meaning we cannot support expressions with both unicode and non-utf8
 		// matches. This should not be commonly needed.
-		return newBinaryRX(options)
+		return newBinaryRX(options, data)
 	}
 
 	// Compile regex + prefilter together so memoize caches all artifacts as one
@@ -185,9 +185,8 @@ type binaryRX struct {
 
 var _ plugintypes.Operator = (*binaryRX)(nil)
 
-func newBinaryRX(options plugintypes.OperatorOptions) (plugintypes.Operator, error) {
-	data := options.Arguments
-
+// data is the pattern with the same flags (dot matches newline, multiline) the regular matcher gets.
+func newBinaryRX(options plugintypes.OperatorOptions, data string) (plugintypes.Operator, error) {
 	re, err := memoizeDo(options.Memoizer, "binaryregexp:"+data, func() (any, error) { return binaryregexp.Compile(data) })
 	if err != nil {
 		return nil, err
